@@ -12,7 +12,7 @@ use crate::wr::{calls_from_tree, calls_json, run_calls, WCall, WRun};
 pub static DEF: PropDef = PropDef {
     id: "C09",
     level: "exploration",
-    rule: "each case: a random conformant tree with per-element options (default / width 1-8 / unknown) is written by the real writer in several presentations and the destination byte streams are compared: (a) no Full items vs every collapsible master as Full vs a random collapse set; (b) deprecated write_unknown_size vs the option form (bytes and per-call destination lengths); (c) the output is decoded with the reference header decoder guided by the tree: every explicit width must be used exactly, unknown-size masters must carry an all-ones size, and the (id bytes, payload bytes) sequence must equal that of the all-default encoding; (d) four short-write schedules of the destination (1 byte per call, random limits, Interrupted injections) must deliver identical bytes. distinct = (tree fingerprint, collapse-set hash); non-trivial iff >=2 masters and at least one collapse or non-default option.",
+    rule: "each case: a random conformant tree with per-element options (default / width 1-8 / unknown) is written by the real writer in several presentations and the destination byte streams are compared: (a) no Full items vs every collapsible master as Full vs a random collapse set; (b) deprecated write_unknown_size vs the option form (bytes and per-call destination lengths), and write_raw(id, data) vs write(RawTag(id, data)); (c) the output is decoded with the reference header decoder guided by the tree: every explicit width must be used exactly, unknown-size masters must carry an all-ones size, and the (id bytes, payload bytes) sequence must equal that of the all-default encoding; (d) four short-write schedules of the destination (1 byte per call, random limits, Interrupted injections) must deliver identical bytes. distinct = (tree fingerprint, collapse-set hash); non-trivial iff >=2 masters and at least one collapse or non-default option.",
     assumptions: &["cases in which the writer rejects the tree are vacuous (counted)", "Full items are only used for masters whose descendants all use default options (Full children cannot carry options) and never together with unknown size"],
     cases_quick: 120_000,
     cases_thorough: 1_500_000,
@@ -31,7 +31,7 @@ fn id_payload_seq(bytes: &[u8], tree: &[Node]) -> Result<Vec<(Vec<u8>, Vec<u8>)>
 }
 
 fn run(c: &mut Case) {
-    let o = DocOpts { p_width: 20, p_unknown: 12, raw: c.rng.chance(1, 10), shaping: true, full_specs: false };
+    let o = DocOpts { p_width: 20, p_unknown: 12, raw: c.rng.chance(1, 5), shaping: true, full_specs: false };
     let doc = gen_doc(&mut c.rng, c.tier, &o);
     doc.spec.install();
     if doc.tree.is_empty() {
@@ -104,6 +104,22 @@ fn run(c: &mut Case) {
         } else if run.lens != base.lens {
             let i = run.lens.iter().zip(base.lens.iter()).position(|(x, y)| x != y).unwrap_or(0);
             c.violation("C09/deprecated/visibility-differs", format!("destination length after call {} differs between deprecated and option form ({} vs {})", i, run.lens[i], base.lens[i]), wit(&calls, &base.bytes, &run.bytes, "b: deprecated visibility"));
+        }
+    }
+    // (b') write_raw(id, data) is just another presentation of a raw tag written through write()
+    if base_calls.iter().any(|x| matches!(x, WCall::Write(crate::spec::Item::Raw(..), SizeOpt::Default))) {
+        let calls: Vec<WCall> = base_calls.iter().map(|x| match x { WCall::Write(crate::spec::Item::Raw(id, d), SizeOpt::Default) => WCall::WriteRaw(*id, d.clone()), other => other.clone() }).collect();
+        let run = run_calls(&calls, ScriptedWrite::new());
+        c.eval();
+        c.count("presentations_compared");
+        c.count("write_raw_presentations_compared");
+        if !run.all_ok() {
+            c.violation("C09/write_raw-rejected", "write_raw() rejected what write(RawTag) accepted", wit(&calls, &base.bytes, &run.bytes, "b': write_raw"));
+        } else if run.bytes != base.bytes {
+            c.violation("C09/write_raw/bytes-differ", "write_raw() produced different bytes than write(RawTag)", wit(&calls, &base.bytes, &run.bytes, "b': write_raw"));
+        } else if run.lens != base.lens {
+            let i = run.lens.iter().zip(base.lens.iter()).position(|(x, y)| x != y).unwrap_or(0);
+            c.violation("C09/write_raw/visibility-differs", format!("destination length after call {} differs between write_raw and write(RawTag) ({} vs {})", i, run.lens[i], base.lens[i]), wit(&calls, &base.bytes, &run.bytes, "b': write_raw visibility"));
         }
     }
     // (c) widths honoured exactly; ids/payloads unchanged relative to the default encoding
